@@ -243,7 +243,7 @@ def run_selftests(prop):
             continue
         for f in sorted(os.listdir(d)):
             path = os.path.join(d, f)
-            if f.endswith(".sed") or (f.endswith((".patch", ".diff")) and not f.startswith("demo")):
+            if f.endswith(".sed") or (f.endswith((".patch", ".diff")) and not f.startswith("demo") and ".pinned." not in f):
                 expect = "silent" if f.startswith("benign") else "fire"
                 ok, log = ST.run_one(prop, path, expect)
                 fired = [l for l in log.splitlines() if l.startswith(prop + " ")]
